@@ -30,7 +30,7 @@ RULE = (
 ASSUMPTIONS = ["the user posterior is deterministic; recorded values are compared at 1e-12 relative (L * (1/T) versus L / T)"]
 TIMEOUT = {"quick": 400, "thorough": 2400}
 REQUIRED = {"rows_rederived": 20000, "programs": 60, "cases:tempered": 20, "cases:bounded": 20, "twin_pairs": 15,
-            "mode_checks": 60, "tempering_runs": 8, "exchanged_points_checked": 10}
+            "mode_checks": 60, "tempering_runs": 8, "exchanged_points_checked": 10, "reloads": 10}
 
 
 def jobs(tier, seed):
@@ -83,12 +83,41 @@ def check_mode(rec, ch, kind, s, p, ctx):
               lambda: f"{kind}: mode() = {m} is not a recorded sample whose recorded log-probability is the maximum {p.max()!r}", ctx)
 
 
+def reload(ch, kind, target):
+    """save + load, giving the copy the original's generator states."""
+    import os
+    import tempfile
+
+    fd, path = tempfile.mkstemp(suffix=".npz", prefix="c03-")
+    os.close(fd)
+    try:
+        ch.save(path)
+        st = mc.rng_states(ch)
+        kw = {"posterior": target}
+        if kind == "hmc":
+            kw["grad"] = getattr(target, "grad", None)
+        cp = type(ch).load(path, **kw)
+        mc.set_rng_states(cp, st)
+        return cp
+    finally:
+        try:
+            os.remove(path)
+        except OSError:
+            pass
+
+
 def run_program(rec, ch, kind, target, T, prog, rng, ctx):
     checked = 0
     for op, m in prog:
         pctx = {**ctx, "call": f"{op}({m})"}
         L0 = int(ch.chain_length)
-        if op == "steps":
+        if op == "reload":
+            r = guarded(reload, ch, kind, target)
+            if not isinstance(r, Raised):
+                ch = r
+                rec.count("reloads")
+                continue
+        elif op == "steps":
             r = guarded(lambda: [ch.take_step() for _ in range(m)])
         elif op == "advance":
             r = guarded(ch.advance, m)
@@ -134,12 +163,15 @@ def random_program(rng, kind):
             prog.append(("advance", int(rng.choice([0, 1, 3, 8]))))
         else:
             r = rng.random()
-            if r < 0.45:
+            if r < 0.4:
                 prog.append(("steps", int(rng.integers(1, 30))))
-            elif r < 0.8:
+            elif r < 0.7:
                 prog.append(("advance", int(rng.choice([0, 1, 7, 40, 101, 130]))))
-            else:
+            elif r < 0.85:
                 prog.append(("replace", 0))
+            else:
+                prog.append(("reload", 0))
+                prog.append(("steps", int(rng.integers(2, 20))))
     return prog
 
 
